@@ -5,6 +5,7 @@ package main
 import (
 	"bytes"
 	"fmt"
+	"io"
 	"reflect"
 	"strconv"
 
@@ -13,6 +14,7 @@ import (
 
 	"verif/gen/gotypes"
 	"verif/gen/nbtgen"
+	"verif/inject"
 	"verif/ref/refnbt"
 	"verif/vm"
 )
@@ -102,11 +104,26 @@ func diffPath(d string) string {
 	return d
 }
 
+// srcR decides how a round trip is carried out: through the Encoder / Decoder types or through the shortcuts
+// nbt.Marshal / nbt.Unmarshal (file format, empty root name), and from which kind of source the bytes are read.
+var srcR *vm.Rand
+
 func roundTrip(c *vm.Ctx, sub string, v reflect.Value, network bool, byPtr bool, name string, feats map[string]bool) {
 	t := v.Type()
 	valStr := short(fmt.Sprintf("%+v", v.Interface()))
+	if srcR == nil {
+		srcR = c.Rand("sources")
+	}
+	wrapper := name == "" && !network && srcR.Bool()
+	chunked := !wrapper && srcR.Intn(3) == 0
+	via := "Encoder.Encode / Decoder.Decode from a bytes.Reader"
+	if wrapper {
+		via = "nbt.Marshal / nbt.Unmarshal"
+	} else if chunked {
+		via = "Encoder.Encode / Decoder.Decode from a plain io.Reader returning 1,2,3,7,... bytes per read"
+	}
 	wit := func() any {
-		return map[string]any{"go_type": short(t.String()), "go_value": valStr, "network": network, "by_pointer": byPtr, "root_name": name}
+		return map[string]any{"go_type": short(t.String()), "go_value": valStr, "network": network, "by_pointer": byPtr, "root_name": name, "via": via}
 	}
 	unsup := ""
 	if sub == "gen" {
@@ -116,13 +133,21 @@ func roundTrip(c *vm.Ctx, sub string, v reflect.Value, network bool, byPtr bool,
 	var buf bytes.Buffer
 	var err error
 	pan := c.Guard(sub+"/marshal", wit, func() {
+		var arg any
+		if byPtr {
+			arg = v.Addr().Interface()
+		} else {
+			arg = v.Interface()
+		}
+		if wrapper {
+			var b []byte
+			b, err = nbt.Marshal(arg)
+			buf.Write(b)
+			return
+		}
 		enc := nbt.NewEncoder(&buf)
 		enc.NetworkFormat(network)
-		if byPtr {
-			err = enc.Encode(v.Addr().Interface(), name)
-		} else {
-			err = enc.Encode(v.Interface(), name)
-		}
+		err = enc.Encode(arg, name)
 	})
 	c.Eval(vm.HashStr(sub, t.String(), valStr, fmt.Sprint(network, byPtr)), t.Kind() != reflect.String && t.Kind() != reflect.Bool)
 	if d := gotypes.StrictSame(snap, v); d != "" {
@@ -143,7 +168,15 @@ func roundTrip(c *vm.Ctx, sub string, v reflect.Value, network bool, byPtr bool,
 	out := reflect.New(t)
 	var gotName string
 	pan = c.Guard(sub+"/unmarshal", func() any { w := wit().(map[string]any); w["bytes"] = vm.Hex(buf.Bytes()); return w }, func() {
-		dec := nbt.NewDecoder(bytes.NewReader(buf.Bytes()))
+		if wrapper {
+			gotName, err = name, nbt.Unmarshal(buf.Bytes(), out.Interface())
+			return
+		}
+		var rd io.Reader = bytes.NewReader(buf.Bytes())
+		if chunked {
+			rd = &inject.ChunkReader{B: buf.Bytes(), Plan: []int{1, 2, 3, 7}}
+		}
+		dec := nbt.NewDecoder(rd)
 		dec.NetworkFormat(network)
 		gotName, err = dec.Decode(out.Interface())
 	})
@@ -175,6 +208,14 @@ func roundTrip(c *vm.Ctx, sub string, v reflect.Value, network bool, byPtr bool,
 	} else {
 		c.Cover("pass.value")
 	}
+	switch {
+	case wrapper:
+		c.Cover("via.Marshal-Unmarshal")
+	case chunked:
+		c.Cover("src.short-reads")
+	default:
+		c.Cover("src.bytes-reader")
+	}
 }
 
 func stripQuoted(s string) string {
@@ -198,7 +239,9 @@ func stripQuoted(s string) string {
 type NamedStr string
 type NamedStrM string
 
-func (NamedStrM) Describe() string { return "a named string type with a method that is not a TextMarshaler" }
+func (NamedStrM) Describe() string {
+	return "a named string type with a method that is not a TextMarshaler"
+}
 
 type NamedInt int32
 
@@ -255,11 +298,11 @@ type Zoo struct {
 	NS   NamedStr
 	NSM  NamedStrM
 	NI   NamedInt
-	TT   TextT    `nbt:"tt"`
-	TTs  []TextT  `nbt:"tts"`
-	EP   EmbPtr   `nbt:"ep"`
-	EV   EmbVal   `nbt:"ev"`
-	PI   *Inner   `nbt:"pi,omitempty"`
+	TT   TextT   `nbt:"tt"`
+	TTs  []TextT `nbt:"tts"`
+	EP   EmbPtr  `nbt:"ep"`
+	EV   EmbVal  `nbt:"ev"`
+	PI   *Inner  `nbt:"pi,omitempty"`
 	M    map[string]Inner
 	Arr  [2]Inner `nbt:"arr"`
 	Skip int      `nbt:"-"`
@@ -487,6 +530,7 @@ func checkCarriers(c *vm.Ctx, r *vm.Rand, g *nbtgen.G) {
 			}
 		}
 	}
+	checkCarriersByValue(c, doc, wrapDoc, listDoc, mapDoc, mapTree, network, cls, wit, same)
 	c.Cover("carrier." + cls)
 }
 
@@ -858,12 +902,36 @@ func checkBigValues(c *vm.Ctx, r *vm.Rand) {
 		rv.Set(reflect.ValueOf(v))
 		roundTripQuiet(c, "big", rv, r.Bool(), r.Bool(), fmt.Sprintf("int/long arrays and lists of about %d elements", n))
 	}
+	// many sibling containers: no value nests deeper than 3, but there are more than 512 structs / lists in a row
+	type elemA struct {
+		A int32 `nbt:"a"`
+	}
+	type many struct {
+		S []elemA   `nbt:"s"`
+		L [][]int16 `nbt:"l"`
+		M []map[string]int8
+		Z string `nbt:"z"`
+	}
+	for _, n := range []int{600, 1500} {
+		v := many{S: make([]elemA, n), L: make([][]int16, n), M: make([]map[string]int8, n), Z: "after"}
+		for i := 0; i < n; i++ {
+			v.S[i].A = int32(r.Uint64())
+			v.L[i] = []int16{int16(i)}
+			v.M[i] = map[string]int8{"k": int8(i)}
+		}
+		roundTripQuiet(c, "big", addr(v), r.Bool(), r.Bool(), fmt.Sprintf("slices of %d structs, lists and maps", n))
+		roundTripQuiet(c, "big", addr(v.S), r.Bool(), r.Bool(), fmt.Sprintf("a slice of %d structs at the root", n))
+		roundTripQuiet(c, "big", addr(v.L), r.Bool(), r.Bool(), fmt.Sprintf("a slice of %d lists at the root", n))
+		c.Cover("big-values.many-siblings")
+	}
 	c.Cover("big-values.roundtrip")
 }
 
 // roundTripQuiet is roundTrip for values too large to print: the witness describes them instead.
 func roundTripQuiet(c *vm.Ctx, sub string, v reflect.Value, network, byPtr bool, desc string) {
-	wit := func() any { return map[string]any{"go_type": short(v.Type().String()), "go_value": desc, "network": network, "by_pointer": byPtr} }
+	wit := func() any {
+		return map[string]any{"go_type": short(v.Type().String()), "go_value": desc, "network": network, "by_pointer": byPtr}
+	}
 	var buf bytes.Buffer
 	var err error
 	if c.Guard(sub+"/marshal", wit, func() {
@@ -903,6 +971,9 @@ func run(c *vm.Ctx) {
 	if c.Shard == 0 {
 		checkNameConflicts(c, c.Rand("conflicts"))
 		checkBigValues(c, c.Rand("big"))
+	}
+	if c.Shard == 1%c.NShards {
+		checkBigCarriers(c, c.Rand("big-carriers"))
 	}
 	r := c.Rand("types")
 	tg := gotypes.New(r)
@@ -945,6 +1016,10 @@ func run(c *vm.Ctx) {
 		v.Set(reflect.ValueOf(z))
 		roundTrip(c, "zoo", v, zr.Bool(), zr.Bool(), "", map[string]bool{"zoo": true})
 	}
+	z2 := c.Rand("zoo2")
+	for i := 0; i < c.Scale(1500, 40000); i++ {
+		checkZoo2(c, z2)
+	}
 	// carriers over documents
 	cr := c.Rand("carriers")
 	cfg := nbtgen.Default()
@@ -964,6 +1039,11 @@ func run(c *vm.Ctx) {
 	sg := nbtgen.New(sr, scfg)
 	for i := 0; i < c.Scale(2000, 40000); i++ {
 		checkStringified(c, sr, sg)
+	}
+	sp := c.Rand("snbt-positions")
+	spg := nbtgen.New(sp, scfg)
+	for i := 0; i < c.Scale(2000, 40000); i++ {
+		checkStringifiedPositions(c, sp, spg)
 	}
 }
 
